@@ -59,6 +59,7 @@ type Ctx struct {
 	inlined  map[string]bool
 	frames   int
 	oblNames map[string]int
+	opaque   map[string]bool
 }
 
 type structInfo struct {
@@ -78,7 +79,7 @@ func newCtx(prog *ssa.Program, db *ContractDB, fn *ssa.Function, fc *FuncContrac
 	c := &Ctx{prog: prog, db: db, top: fn, fc: fc, mode: "int",
 		declared: map[string]bool{}, structs: map[string]*structInfo{}, compSort: map[string]Sort{},
 		strLits: map[string]Term{}, typeTags: map[string]int{}, notes: map[string]int{}, assumed: map[string]bool{},
-		safety: map[string]bool{}, ufs: map[string]bool{}, inlined: map[string]bool{}}
+		safety: map[string]bool{}, ufs: map[string]bool{}, inlined: map[string]bool{}, opaque: map[string]bool{}}
 	if fc != nil && fc.Arith != "" {
 		switch fc.Arith {
 		case "bv":
